@@ -36,6 +36,7 @@ TOL = 1e-5
 TOL_TICKS = int(round(TOL * ONE))
 MARGIN = 5e-5
 KEY_SHIFT_CLIP = "shift-invariance-with-tanh-clipping"
+KEY_OVERFLOW = "overflow:logits-over-temperature-not-representable"
 
 
 def _dec():
@@ -177,10 +178,10 @@ def ticks(t):
     return [int(round(v * ONE)) for v in t.double().tolist()]
 
 
-def spec_line(n, k, p, mask, score, kept, probs, q=None, p2=None, ga=None, sa=None):
+def spec_line(n, k, p, mask, score, kept, probs, q=None, p2=None, ga=None, sa=None, tol=TOL):
     j = lambda l: " ".join(map(str, l))
     pt = (p[0] * ONE) // p[1]
-    return (f"logits.spec {n} {k} {pt} {TOL_TICKS} {ONE} | {j([int(b) for b in mask])} | {j(score)} | "
+    return (f"logits.spec {n} {k} {pt} {int(round(tol * ONE))} {ONE} | {j([int(b) for b in mask])} | {j(score)} | "
             f"{j([int(b) for b in kept])} | {j(probs)} | {j(q) if q is not None else ''} | "
             f"{j(p2) if p2 is not None else ''} | {'' if ga is None else ga} | {'' if sa is None else sa}")
 
@@ -190,21 +191,22 @@ def frac_list(s):
 
 
 # ---------------------------------------------------------------------------------------------------
-def near_threshold(qrow, top_p):
+def near_threshold(qrow, top_p, margin=None):
     """Is some cumulative probability of the ascending-sorted row within MARGIN of `1 - top_p`?  (Then the
     float32 comparison `cum <= 1 - top_p` may go either way and the support is not determined.)"""
     if not (0 < top_p < 1):
         return False
+    margin = MARGIN if margin is None else margin
     cum = 0.0
     for v in sorted(qrow):
         cum += v
-        if abs(cum - (1 - top_p)) < MARGIN:
+        if abs(cum - (1 - top_p)) < margin:
             return True
     return False
 
 
 def run_config(ctx, rows_m, masks, T, k, p, C, tag, compare_model=True, raw_logits=None, mask_logits=True,
-               shifts=(3.0, -7.5, 100.0, 0.25)):
+               shifts=(3.0, -7.5, 100.0, 0.25), tol=TOL):
     """One batched call of the real code for one configuration; rows = (exponents, mask).
     `mask_logits=False`: the real code is called with `mask=None, mask_logits=False` (the caller passes
     all-True masks, which is what that path must be equivalent to)."""
@@ -249,10 +251,10 @@ def run_config(ctx, rows_m, masks, T, k, p, C, tag, compare_model=True, raw_logi
     probs = lp.exp()
     kept = torch.isfinite(lp)
     # the unfiltered distribution by its definition (float64): softmax over the feasible actions of clip(logit)/T
-    z = logits.double()
-    if C:
-        z = torch.tanh(logits).double() * float(C)
-    z = (z / temp).masked_fill(~torch.tensor(masks, dtype=torch.bool), float("-inf"))
+    # (clipping and the division by T are done in the logits' dtype, as the code does: at magnitude 1e4 a float32
+    # quotient is only accurate to 1e-3, which is not what this check is about)
+    z = ((torch.tanh(logits) * float(C) if C else logits) / temp).double()
+    z = z.masked_fill(~torch.tensor(masks, dtype=torch.bool), float("-inf"))
     q_ref = torch.softmax(z, -1)
     nanrow = (torch.isnan(lp).any(-1) | torch.isnan(lp2).any(-1) | torch.isnan(q).any(-1)).tolist()
     lines, meta = [], []
@@ -277,12 +279,12 @@ def run_config(ctx, rows_m, masks, T, k, p, C, tag, compare_model=True, raw_logi
                                     sig[b] if sig is not None else [], [g if g is not None else 0, s if s is not None else 0],
                                     ml=1 if mask_logits else 0))
             meta.append(("model", b, wit))
-        if k == 0 and float((q[b].double() - q_ref[b]).abs().max()) > TOL:
+        if k == 0 and float((q[b].double() - q_ref[b]).abs().max()) > tol:
             ctx.violation("spec-unfiltered", "process_logits with top_k=0, top_p=0 is not the masked softmax of clip(logits)/T",
                           {"real": q[b].tolist(), "definition": q_ref[b].tolist(), **wit})
         score = ms if raw_logits is None else rows_m[b]
         lines.append(spec_line(n, k, p, mk, score, kept[b].tolist(), ticks(probs[b]), ticks(q[b]),
-                               ticks(lp2[b].exp()), g, s))
+                               ticks(lp2[b].exp()), g, s, tol=tol))
         meta.append(("spec", b, wit))
     replies = ctx.driver.ask_many(lines)
     margin_of = {}
@@ -341,7 +343,7 @@ def run_config(ctx, rows_m, masks, T, k, p, C, tag, compare_model=True, raw_logi
             if ctx.evaluations % 997 == 1:
                 ctx.sample({"input": wit, "model_reply": rep[:300], "real_support": rl.mask_str(kept[b])})
         else:
-            near = (b in margin_of and margin_of[b] < MARGIN) or near_threshold(q[b].double().tolist(), top_p)
+            near = (b in margin_of and margin_of[b] < MARGIN) or near_threshold(q[b].double().tolist(), top_p, max(MARGIN, 5 * tol))
             names = {"isdist": "probabilities are a normalised distribution", "maskedzero": "masked actions have zero probability",
                      "argmax": "a most likely feasible action is kept", "topkcard": "top-k keeps at most k (ties aside)",
                      "topkge": "no more feasible actions than k: nothing feasible removed by top-k",
@@ -494,6 +496,86 @@ def corr_process(ctx):
         run_config(ctx, scores, mk, T, max(k, 0), p, C, "generic-floats", compare_model=False, raw_logits=raw,
                    mask_logits=ml, shifts=(3.0, -7.5, 0.25))
         ctx.count("configs generic-floats (spec only)")
+
+
+def dtype_scores(raw, C, temp):
+    """order-equivalent integer scores of the logits that enter the filters, computed with the operations and
+    in the dtype of the code (`tanh(x) * C / T`): dense ranks per row"""
+    z = (torch.tanh(raw) * float(C) if C else raw) / temp
+    out = []
+    for b in range(z.shape[0]):
+        vals = sorted(set(z[b].double().tolist()))
+        idx = {v: i for i, v in enumerate(vals)}
+        out.append([idx[v] for v in z[b].double().tolist()])
+    return out
+
+
+def corr_audit(ctx):
+    """Input dimensions beyond the float32 / n ≤ 100 / moderate-magnitude streams: other dtypes, very long rows,
+    magnitudes ±1e4 next to -inf, temperatures 1e-3 / 1e3.  Spec oracle on the real outcomes (tolerance of the
+    dtype); rows whose `logits / temperature` is not representable in the dtype are outside the property's
+    scope and are reported once under the key `overflow`."""
+    rng = ctx.rng
+
+    def rows(n, B, kind):
+        out = []
+        for _ in range(B):
+            if kind == "normal":
+                r = [rng.gauss(0, 2) for _ in range(n)]
+            elif kind == "ties":
+                pool = [rng.gauss(0, 2) for _ in range(max(1, n // 3))]
+                r = [rng.choice(pool) for _ in range(n)]
+            elif kind == "big":
+                r = [rng.choice([1e4, -1e4, 0.0, 5.0, 1e4 - 1, -1e4 + 1, 9999.5]) for _ in range(n)]
+            else:
+                r = [rng.gauss(0, 0.3) for _ in range(n)]
+                r[rng.randrange(n)] += 8.0
+            out.append(r)
+        return out
+
+    def masks(n, B):
+        return [gen_mask(rng, n, ["single", "all", "allbut1", "random", "random", "single"][b % 6]) for b in range(B)]
+
+    def one(raw, mk, T, k, p, C, tag, tol):
+        temp = T[0] / T[1]
+        fin = torch.finfo(raw.dtype).max
+        zmax = float((torch.tanh(raw.double()) * C if C else raw.double()).abs().max()) / temp
+        if zmax > fin:
+            ctx.count("audit rows skipped: logits/temperature overflows the dtype")
+            return
+        run_config(ctx, dtype_scores(raw, C, temp), mk, T, k, p, C, tag, compare_model=False, raw_logits=raw,
+                   shifts=(0.0,) if raw.dtype in (torch.float16, torch.bfloat16) else (3.0, -7.5, 0.25), tol=tol)
+        ctx.count(f"audit configs {tag}")
+
+    PSA = [(0, 1), (1, 20), (1, 2), (9, 10), (99, 100), (1, 1), (1, 10 ** 9)]
+    # dtypes
+    for dt, tol in ((torch.float16, 1e-2), (torch.bfloat16, 6e-2), (torch.float64, TOL)):
+        for it in range(ctx.budget(24, 240)):
+            n = rng.choice([1, 2, 3, 5, 8, 12])
+            B = 6
+            T = rng.choice([(1, 2), (1, 1), (2, 1), (3, 1)])
+            C = rng.choice([0, 0, 10])
+            k = rng.choice([0, 0, 1, 2, n, n + 2])
+            raw = torch.tensor(rows(n, B, rng.choice(["normal", "ties", "peaked"])), dtype=torch.float64).to(dt)
+            one(raw, masks(n, B), T, k, rng.choice(PSA), C, f"dtype-{str(dt).split('.')[-1]}", tol)
+    # very long rows
+    for n in ([1000] if ctx.tier != "thorough" else [1000, 3000]):
+        for it in range(ctx.budget(4, 12)):
+            B = 2
+            T = rng.choice([(1, 2), (1, 1), (3, 1)])
+            k = rng.choice([0, 1, 10, n - 1, n, n + 5])
+            raw = torch.tensor(rows(n, B, rng.choice(["normal", "ties", "peaked"])), dtype=torch.float32)
+            mk = [gen_mask(rng, n, rng.choice(["random", "all", "allbut1", "single"])) for _ in range(B)]
+            one(raw, mk, T, k, rng.choice(PSA), rng.choice([0, 10]), f"long-rows n={n}", TOL)
+    # magnitudes ±1e4 next to -inf, temperatures 1e-3 .. 1e3
+    for it in range(ctx.budget(60, 600)):
+        n = rng.randint(1, 8)
+        B = 6
+        T = rng.choice([(1, 1000), (1, 100), (1, 1), (100, 1), (1000, 1)])
+        k = rng.choice([0, 0, 1, 2, n, n + 1])
+        kind = rng.choice(["big", "big", "normal", "peaked"])
+        raw = torch.tensor(rows(n, B, kind), dtype=torch.float32)
+        one(raw, masks(n, B), T, k, rng.choice(PSA), rng.choice([0, 0, 10]), "magnitude-1e4/extreme-temperature", TOL)
 
 
 def corr_select(ctx):
@@ -650,6 +732,101 @@ def corr_step(ctx):
                     ctx.disagreement(f"{name}.step gathered log-probability", {"real": lpa[b], "model_prob": mp, **wit})
 
 
+def corr_book(ctx):
+    """Bookkeeping of a strategy object: `step` appends the selected action and the gathered log-prob (or the whole
+    row with `store_all_logp`), `post_decoder_hook` stacks them; `Evaluate` takes the given action; the buffers are
+    not reset between decoding sequences on the same object (model: Rl4co.Decode.postHook_fresh / _reuse /
+    evaluate_gathers).  Judged on the real outcome: the stacked actions are the per-step choices in order and
+    entry t is the log-prob that step t's distribution gives to the action chosen at step t."""
+    dec = _dec()
+    rng = ctx.rng
+    for it in range(ctx.budget(60, 500)):
+        n = rng.randint(2, 8)
+        B = rng.choice([1, 2, 4])
+        L1, L2 = rng.randint(1, 5), rng.randint(0, 4)
+        store_all = it % 3 == 0
+        kind = ["greedy", "sampling", "evaluate"][it % 3 if it % 2 else rng.randrange(3)]
+        T, p, C = rng.choice(TEMPS), rng.choice(PS), rng.choice(CLIPS)
+        k = rng.randint(0, n + 1)
+        cls = {"greedy": dec.Greedy, "sampling": dec.Sampling, "evaluate": dec.Evaluate}[kind]
+        kw = dict(temperature=T[0] / T[1], top_p=p[0] / p[1], top_k=k, tanh_clipping=float(C))
+        strat = cls(store_all_logp=store_all, **kw)
+        ctx.count(f"bookkeeping {kind}{' store_all_logp' if store_all else ''}")
+        chosen, rows_lp, given_all = [], [], []
+        outs = []
+        for seq, L in enumerate((L1, L2)):
+            if seq == 1 and L == 0:
+                break
+            td = TensorDict({}, batch_size=[B])
+            td, _, _ = strat.pre_decoder_hook(td, None)
+            for t in range(L):
+                rows = [gen_exponents(rng, n, T, C, rng.choice(KINDS)) for _ in range(B)]
+                mk = [gen_mask(rng, n, rng.choice(["random", "all", "single"])) for _ in range(B)]
+                logits, mask = real_logits(rows, T, C), torch.tensor(mk, dtype=torch.bool)
+                full = dec.process_logits(logits.clone(), mask, **kw)
+                torch.manual_seed(rng.randrange(1 << 30))
+                if kind == "evaluate":
+                    given = torch.tensor([rng.choice([j for j in range(n) if mk[b][j]]) for b in range(B)])
+                    td = strat.step(logits.clone(), mask, td, action=given)
+                    given_all.append(given.tolist())
+                else:
+                    td = strat.step(logits.clone(), mask, td)
+                chosen.append(td["action"].tolist())
+                rows_lp.append(full)
+            lp, act, td, _ = strat.post_decoder_hook(td, None)
+            outs.append((lp, act))
+        total = len(chosen)
+        rep = parse_fields(ctx.driver.ask(
+            f"logits.book {int(store_all)} {L1} {int(kind == 'evaluate')} | " + " ".join(str(chosen[t][0]) for t in range(total))))
+        for seq, (lp, act) in enumerate(outs):
+            upto = L1 if seq == 0 else total
+            wit = {"strategy": kind, "store_all_logp": store_all, "n": n, "B": B, "L1": L1, "L2": L2, "sequence": seq,
+                   "chosen_per_step": [chosen[t] for t in range(upto)], "returned_actions": act.tolist()}
+            ctx.case(("book", it, seq))
+            if seq == 1:
+                ctx.count("bookkeeping: second sequence on the same object (buffers continue)")
+            ok_shape = act.shape[1] == upto and lp.shape[1] == upto
+            if not ok_shape:
+                key = "book-length" if seq == 0 else "book-reuse-length"
+                (ctx.violation if seq == 0 else ctx.disagreement)(
+                    *((key, "post_decoder_hook does not return one entry per step", wit) if seq == 0 else
+                      ("buffers after a second sequence are not first ++ second", wit)))
+                continue
+            for b in range(B):
+                for t in range(upto):
+                    if act[b, t].item() != chosen[t][b]:
+                        ctx.violation("book-actions", "stacked actions are not the per-step choices in order", {"row": b, "step": t, **wit})
+                    if kind == "evaluate" and act[b, t].item() != given_all[t][b]:
+                        ctx.violation("book-evaluate", "Evaluate did not take the given action", {"row": b, "step": t, **wit})
+                    want = rows_lp[t][b] if store_all else rows_lp[t][b, chosen[t][b]]
+                    got = lp[b, t]
+                    same = torch.equal(torch.nan_to_num(got, neginf=-1e30), torch.nan_to_num(want, neginf=-1e30))
+                    if not same:
+                        ctx.violation("book-logprobs", "entry t of the stacked log-probs is not step t's log-prob of the action "
+                                      "chosen at step t", {"row": b, "step": t, "got": got.tolist(), "want": want.tolist(), **wit})
+            # the model's view of row 0
+            m = rep["first" if seq == 0 else "reuse"].split("/")
+            macts = [int(v) for v in m[0].split(",")] if m[0] else []
+            ments = m[1].split(",") if len(m) > 1 and m[1] else []
+            want_e = ["all"] * upto if store_all else [str(1000 * t + chosen[t][0]) for t in range(upto)]
+            if macts != [chosen[t][0] for t in range(upto)] or ments != want_e or act[0].tolist() != macts:
+                ctx.disagreement("strategy bookkeeping (actions / gathered entries)", {"model": rep, **wit})
+
+
+def probe_overflow(ctx):
+    """Scope note: when `logits / temperature` is not representable in the logits' dtype the quotient is ±inf and
+    log_softmax returns NaN (float16 logits 1e4 with T = 0.1; float32 logits 3e38 with T = 0.5)."""
+    dec = _dec()
+    for dt, val, temp in ((torch.float16, 1e4, 0.1), (torch.float32, 3e38, 0.5)):
+        lg = torch.tensor([[val, -val, 1.0]], dtype=dt)
+        mask = torch.ones(1, 3, dtype=torch.bool)
+        lp = dec.process_logits(lg.clone(), mask, temperature=temp)
+        ctx.case(("overflow", str(dt)))
+        if torch.isnan(lp).any():
+            ctx.violation(KEY_OVERFLOW, "logits / temperature overflows the dtype: the row is NaN",
+                          {"dtype": str(dt), "logits": lg.tolist(), "temperature": temp, "logprobs": [str(v) for v in lp[0].tolist()]})
+
+
 def probe_float(ctx):
     """Float32 effects outside the real-number model (DESIGN §6 C10 L / §8): for `top_p` below float32
     resolution `1 - top_p` rounds to 1.0.  Before upstream fix 0ef23b5 (`sorted_indices_to_remove[..., -1] =
@@ -675,9 +852,12 @@ def probe_float(ctx):
 
 def run(ctx):
     corr_process(ctx)
+    corr_audit(ctx)
     corr_select(ctx)
     corr_step(ctx)
+    corr_book(ctx)
     probe_float(ctx)
+    probe_overflow(ctx)
 
 
 MODEL_NOTE = ("process_logits / top-k / top-p / greedy / sampling modelled per row over an abstract ordered field with an "
@@ -724,6 +904,20 @@ THEOREMS = [
     Theorem(T + "decodeLogprobs_feasible", "proved", "decode_logprobs (greedy / sampling dispatch) only returns feasible actions"),
     Theorem(T + "nomask_sound", "proved", "mask_logits=False: all distribution clauses hold with every action feasible, whatever mask is passed"),
     Theorem(T + "step_nomask", "proved", "Greedy/Sampling(mask_logits=False).step return the argmax / first draw unchecked"),
+    Theorem(T + "processLogitsGen_eq", "proved", "translator tie: the statement sequence regenerated from process_logits (Generated/LogitsPipeline.lean) is the model"),
+    Theorem(T + "decoding_sound_generated", "proved", "all distribution / greedy / sampling clauses restated on the generated process_logits"),
+    Theorem(T + "shift_invariant_generated", "proved", "shift invariance (clipping off) on the generated process_logits"),
+    Theorem(T + "postHook_fresh", "proved", "fresh strategy object: post_decoder_hook returns the per-step selected actions in order and, per step, the probability of the action selected at that step (whole row with store_all_logp)"),
+    Theorem(T + "postHook_reuse", "proved", "object reuse: the buffers are not reset, a second sequence returns first ++ second"),
+    Theorem(T + "evaluate_gathers", "proved", "Evaluate: returned actions are the given ones and entry t is step t's probability of the given action"),
+    Theorem(T + "runSteps_append", "proved", "step only appends to the buffers"),
+    Theorem("Rl4co.Spec.Decode.isDist_uniform", "proved", "spec sanity: the uniform distribution satisfies IsDist (n > 0)"),
+    Theorem("Rl4co.Spec.Decode.feasible_mass_one", "proved", "spec sanity: IsDist ∧ MaskedZero ⇒ the feasible actions carry mass 1"),
+    Theorem("Rl4co.Spec.Decode.topkCard_of_card_le", "proved", "spec sanity: #kept ≤ k ⇒ TopkCard (the ties-aside clause only weakens 'at most k')"),
+    Theorem("Rl4co.Spec.Decode.argmaxKept_strictMono", "proved", "spec sanity: ArgmaxKept depends only on the order of the scores"),
+    Theorem("Rl4co.Spec.Decode.toppMass_all_kept", "proved", "spec sanity: keeping everything satisfies the mass clause"),
+    Theorem("Rl4co.Spec.Decode.toppTight_excludes", "proved", "spec sanity: tightness excludes an action dominated by a strictly more likely one of mass ≥ p"),
+    Theorem("Rl4co.Spec.Decode.toppTight_subset", "proved", "spec sanity: tightness is inherited by smaller supports"),
     Theorem(T + "shift_invariant", "proved", "clipping off: adding a constant to all logits changes neither probabilities nor support"),
     Theorem(T + "valid_shift", "proved", "clipping off: the valid oracle inputs of shifted and unshifted logits coincide"),
     Theorem(T + "shift_invariant_clipped_counterexample", "proved",
@@ -744,7 +938,8 @@ THEOREMS = [
 ]
 
 register(Unit("C10", "logits", run, drivers=["drv_logits"],
-              lean_modules=["Rl4co.Props.C10.Logits", "Rl4co.Props.C10.LogitsReal", "Rl4co.Props.C10.LogitsExists", "Rl4co.Props.C10.LogitsTight", "Rl4co.Props.C10.LogitsOpt"],
+              lean_modules=["Rl4co.Props.C10.Logits", "Rl4co.Props.C10.LogitsReal", "Rl4co.Props.C10.LogitsExists", "Rl4co.Props.C10.LogitsTight", "Rl4co.Props.C10.LogitsOpt", "Rl4co.Props.C10.LogitsGenerated",
+                            "Rl4co.Props.C10.LogitsSpecSanity", "Rl4co.Decode.LogitsStep"],
               theorems=THEOREMS,
               assumptions=[MODEL_NOTE, ORACLE_NOTE, SCOPE_NOTE, TOKEN_NOTE,
                            "the driver instantiates the model with rationals and the weight 2^y on integer logits "
